@@ -125,8 +125,9 @@ def ucb_and_max_variance(h, kind, d):
     h.is_gradient("opt_func_gradient == d opt_func / d x", lambda t: a.opt_func(t), x, np.atleast_1d(g))
 
 
-@unit("C18", quick=[dict(d=1, ny=2), dict(d=2, ny=2)], thorough=[dict(d=2, ny=3)], max_paths=4000)
-def starting_positions_inside_bounds(h, d, ny):
+@unit("C18", quick=[dict(d=1, ny=2, rounds=2), dict(d=2, ny=2), dict(d=1, ny=2, form="ndarray", rounds=2), dict(d=1, ny=2, form="lists", rounds=2)],
+      thorough=[dict(d=2, ny=3), dict(d=2, ny=2, form="ndarray", rounds=2)], max_paths=4000)
+def starting_positions_inside_bounds(h, d, ny, form="tuples", rounds=1):
     import inference.gp.acquisition as aq
     h.patch(aq, minimum=funcs.minimum, maximum=funcs.maximum, float=object)
     rng = stubs.SymRng(h, "starts")
@@ -146,11 +147,19 @@ def starting_positions_inside_bounds(h, d, ny):
     lo = h.real("blo", d)
     wd = h.real("bwd", d, pos=True)
     bounds = [(lo[i], lo[i] + wd[i]) for i in range(d)]
-    starts = a.starting_positions(bounds)
-    h.same("one start per data point", len(starts), ny)
-    for k, s in enumerate(starts):
-        h.ge(f"start {k} >= lower bound", s, lo)
-        h.le(f"start {k} <= upper bound", s, lo + wd)
+    if form == "ndarray":
+        bounds = np.array(bounds, dtype=object if h.sym else float)
+    elif form == "lists":
+        bounds = [list(b) for b in bounds]
+    for rnd in range(rounds):  # the caller's bounds must survive a call: the second round sees the same box
+        counter[0] = 0
+        starts = a.starting_positions(bounds)
+        h.same(f"round {rnd}: one start per data point", len(starts), ny)
+        for k, s in enumerate(starts):
+            h.ge(f"round {rnd}: start {k} >= lower bound", s, lo)
+            h.le(f"round {rnd}: start {k} <= upper bound", s, lo + wd)
+        h.eq(f"round {rnd}: caller's bounds unchanged", np.array([[b[0], b[1]] for b in bounds], dtype=object if h.sym else float),
+             np.array([[lo[i], lo[i] + wd[i]] for i in range(d)], dtype=object if h.sym else float))
 
 
 def _optimiser(h, d, n, with_err=True, one_d_input=False):
